@@ -40,6 +40,45 @@ let hex_of_bytes bs =
 let runes_of_string s = if s = "-" then [] else List.map z_of_hex (String.split_on_char ',' s)
 let string_of_runes rs = if rs = [] then "-" else String.concat "," (List.map hex_of_z rs)
 
+let rec print_hval b (h : hval) =
+  let names rs = if rs = [] then "-" else String.concat "," (List.map hex_of_z rs) in
+  match h with
+  | HNull -> Buffer.add_string b "N"
+  | HBool true -> Buffer.add_string b "T"
+  | HBool false -> Buffer.add_string b "F"
+  | HInt z -> Buffer.add_string b ("I" ^ hex_of_z z)
+  | HLong z -> Buffer.add_string b ("L" ^ hex_of_z z)
+  | HDouble z -> Buffer.add_string b (if is_nan64 z then "Dnan" else "D" ^ hex_of_z z)
+  | HDate z -> Buffer.add_string b ("d" ^ hex_of_z z)
+  | HString rs -> Buffer.add_string b ("S(" ^ names rs ^ ")")
+  | HBinary bs -> Buffer.add_string b ("B(" ^ hex_of_bytes bs ^ ")")
+  | HRef z -> Buffer.add_string b ("R" ^ hex_of_z z)
+  | HList (ty, items) ->
+    Buffer.add_string b "l["; (match ty with Some t -> Buffer.add_string b (names t) | None -> Buffer.add_string b "~");
+    Buffer.add_string b "](";
+    List.iteri (fun i it -> if i > 0 then Buffer.add_char b ' '; print_hval b it) items;
+    Buffer.add_string b ")"
+  | HMap (ty, es) ->
+    Buffer.add_string b "m["; (match ty with Some t -> Buffer.add_string b (names t) | None -> Buffer.add_string b "~");
+    Buffer.add_string b "](";
+    List.iteri (fun i (k, v) -> if i > 0 then Buffer.add_char b ' '; print_hval b k; Buffer.add_char b ' '; print_hval b v) es;
+    Buffer.add_string b ")"
+  | HObject (cls, fs) ->
+    Buffer.add_string b ("o[" ^ names cls ^ "](");
+    List.iteri (fun i (n, v) -> if i > 0 then Buffer.add_char b ' '; Buffer.add_string b (names n ^ "="); print_hval b v) fs;
+    Buffer.add_string b ")"
+let hval_str h = let b = Buffer.create 256 in print_hval b h; Buffer.contents b
+
+(* successive values on one stream, sharing the parser state *)
+let parse_seq bs =
+  let rec go st bs acc =
+    if bs = [] then "ok " ^ String.concat " ; " (List.rev acc) else
+    match hparse st bs with
+    | Ok ((v, r), st') -> go st' r (hval_str v :: acc)
+    | Err _ -> "err after " ^ string_of_int (List.length acc)
+    | Panic -> "panic" | Fuel -> "fuel" in
+  go pstate0 bs []
+
 let res_str f r = match r with
   | Ok a -> f a
   | Err _ -> "err"
@@ -70,6 +109,8 @@ let handle line =
   | ["decstr"; h] -> res_str (fun (rs, r) -> Printf.sprintf "ok %s %d" (string_of_runes rs) (List.length r)) (decode_string (bytes_of_hex h))
   | ["encbin"; h] -> hex_of_bytes (encode_binary (bytes_of_hex h))
   | ["decbin"; h] -> res_str (fun (bs, r) -> Printf.sprintf "ok %s %d" (hex_of_bytes bs) (List.length r)) (decode_binary (bytes_of_hex h))
+  | ["parse"; h] -> res_str (fun v -> "ok " ^ hval_str v) (hparse_all (bytes_of_hex h))
+  | ["parseseq"; h] -> parse_seq (bytes_of_hex h)
   | _ -> Driver_ext.handle line
 
 let () =
